@@ -354,6 +354,15 @@ def _check_machine(scn: Dict[str, Any], hist: Dict[str, Any]) -> List[dict]:
             if t["enabled"] and period > 0 and post[nidx] <= last:
                 V("target_in_future", k, f"{name} target {post[nidx]} not beyond last ticked cycle {last}",
                   timer=name, after="step")
+            # the instant of the firing inside the step (Python machine: the memory seam sees the status bit being
+            # set together with the cycle counter): the first cycle handed to the timers that is not before the target
+            extra = post[machine.O_SHADOW] if len(post) > machine.O_SHADOW and isinstance(post[machine.O_SHADOW], dict) else None
+            if ex == "py-machine" and expect and rose and extra and extra.get("timer_rise"):
+                at = [c for c, bits, *_ in extra["timer_rise"] if bits & bit]
+                due = max(nxt, first)
+                if at and at[0] != due:
+                    V("fire_instant", k, f"{name} boundary {nxt} (cycles {first}..{last} ticked in this step): the status bit "
+                      f"was set at cycle {at[0]}, not at {due}", timer=name, level="machine")
     return viols
 
 
